@@ -45,7 +45,7 @@ def gen(rng):
             cut = rng.randint(1, k - 1)
             e = (tuple(ns[:cut]), tuple(ns[cut:]))
         edges.append(e)
-        h.add_edge(e, weight=2 if h.is_weighted() else None)
+        h.add_edge(e, weight=rng.choice([2, 0, 0.0, 1, 2.5]) if h.is_weighted() else None)  # (a hyperedge of weight 0 is present)
     for n in labels:
         if rng.random() < 0.3:
             h.add_node(n)
@@ -77,6 +77,9 @@ def run_case(ctx, rng, idx):
         ctx.event("exhaustive-3-node-directed-hypergraph")
         evaluate(ctx, rng, idx, h)
         return
+    if idx == 2 or (ctx.tier == "thorough" and idx % 5000 == 11):
+        many_same_shape_case(ctx, rng, idx)
+        return
     if idx == 1 or (ctx.tier == "thorough" and idx % 700 == 9):
         from ..gen import big_directed
 
@@ -99,6 +102,55 @@ def run_case(ctx, rng, idx):
         lab, g2 = second_order(rng, h, directed=True)
         ctx.event("re-evaluated-on-" + lab)
         evaluate(ctx, rng, idx, g2)
+
+
+def many_same_shape_case(ctx, rng, idx):
+    """More hyperedges of ONE shape than a 16-bit counter holds (all 89 700 ordered pairs on 300 nodes, plus a few larger
+    hyperedges): the signature cells are counts, whatever their size.  Only the signature and the unfiltered degree
+    sequences are judged here (references are closed forms)."""
+    import hypergraphx as hgx
+    from hypergraphx.measures import directed as dm
+
+    n = 300
+    ctx.event("89700-hyperedges-of-one-shape")
+    h = hgx.DirectedHypergraph()
+    for i in range(n):
+        for j in range(n):
+            if i != j:
+                h.add_edge(((i,), (j,)))
+    extra = [((0, 1), (2,)), ((3,), (4, 5)), ((6, 7), (8, 9)), ((10,), (11, 12, 13))]
+    for e in extra:
+        h.add_edge(e)
+
+    def wit(x=None):
+        return {"n": n, "pairs": n * (n - 1), "extra": extra, "got": repr(x)[:300]}
+
+    for m in (2, 3, 4, None):
+        r = call(dm.hyperedge_signature_vector, h, m) if m is not None else call(dm.hyperedge_signature_vector, h)
+        mm = 4 if m is None else m
+        if isinstance(r, _Raised):
+            ctx.check("C12:signature", False, f"C12:signature:raised:{type(r.e).__name__}", lambda: wit(r))
+            continue
+        ref = np.zeros((mm - 1) * (mm - 1))
+        ref[0] = n * (n - 1)
+        for s_, t_ in extra:
+            if len(s_) + len(t_) <= mm:
+                ref[(len(s_) - 1) * (mm - 1) + (len(t_) - 1)] += 1
+        ctx.check("C12:signature", np.shape(r) == ref.shape and np.array_equal(np.asarray(r, dtype=float), ref), "C12:signature:cells", lambda: wit((m, np.asarray(r).tolist()[:9])))
+        ctx.check("C12:signature", float(np.sum(np.asarray(r, dtype=float))) == float(ref.sum()), "C12:signature:sum", lambda: wit(m))
+    gi, go = call(dm.in_degree_sequence, h), call(dm.out_degree_sequence, h)
+    ind = {v: n - 1 for v in range(n)}
+    outd = {v: n - 1 for v in range(n)}
+    for s_, t_ in extra:
+        for v in s_:
+            ind[v] += 1
+        for v in t_:
+            outd[v] += 1
+    ctx.check("C12:degree", gi == ind, "C12:in_degree_sequence", lambda: wit("in"))
+    ctx.check("C12:degree", go == outd, "C12:out_degree_sequence", lambda: wit("out"))
+    r = call(dm.exact_reciprocity, h, 2)
+    ctx.check("C12:reciprocity", not isinstance(r, _Raised) and r.get(2) == 1.0, "C12:exact_reciprocity:value", lambda: wit(r))
+    ctx.distinct_add(("many-same-shape", n))
 
 
 def evaluate(ctx, rng, idx, h):
